@@ -19,6 +19,8 @@ from mc.engine import ok, bad, unspecified
 from mc.common import call, Raised, DimArray, Axis, py, same_scalar, same_list
 
 ID = "C10"
+OEO = ("assign_cell",)    # a third of the cases get a second pass on the same array after an in-place edit (engine._oeo); only the cell
+                          # assignment: the broadcast targets of the cases embed the array's original labels
 VARIANT_SWEEP = True      # thorough tier: every case on every history variant of its array (see mc/domains.py VSHIFT)
 TITLE = "rearranging dimensions preserves coordinates"
 RULE = ("product of (arrays 0-4D, axes of pairwise different kind and length, variants with singleton dimensions) x "
